@@ -369,11 +369,13 @@ func (c *Ctx) Finish(done bool) {
 // The current intent is reported as a non-termination violation candidate.
 func (c *Ctx) Watchdog(limitCPU float64) {
 	go func() {
-		last := atomic.LoadInt64(&c.progress)
+		// progress is a call that began (Begin) or one that returned (Eval): in a concurrent workload the
+		// calls of many goroutines return all the time while only few Begin records are written
+		last := atomic.LoadInt64(&c.progress) + atomic.LoadInt64(&c.evals)
 		lastCPU := cpuNow()
 		for {
 			time.Sleep(500 * time.Millisecond)
-			p := atomic.LoadInt64(&c.progress)
+			p := atomic.LoadInt64(&c.progress) + atomic.LoadInt64(&c.evals)
 			now := cpuNow()
 			if p != last {
 				last, lastCPU = p, now
